@@ -35,7 +35,215 @@ Proof.
   unfold observe, oids, pending_ids, ids.
   assert (G : forall l, map o_id (filter orow_pending (map (fun r => mkorow (r_id r) (r_st r) (r_fail r)
                  match r_last r with Some l0 => Some (s_now s - l0) | None => None end) l)) = map r_id (filter is_pending l)).
-  { induction l as [|r l IH]; cbn; [reflexivity|]. unfold orow_pending, is_pending. cbn.
-    destruct (status_eqb (r_st r) Pending); cbn; rewrite IH; reflexivity. }
+  { induction l as [|r l IH]; [reflexivity|]. cbn [map filter]. unfold orow_pending at 1, is_pending at 1. cbn [o_st].
+    destruct (status_eqb (r_st r) Pending); cbn [map o_id]; rewrite IH; reflexivity. }
   destruct (s_mgr s); cbn; apply G.
 Qed.
+
+Lemma same_set_length (l1 l2 : list N) :
+  NoDup l1 -> NoDup l2 -> (forall x, In x l1 <-> In x l2) -> length l1 = length l2.
+Proof.
+  intros N1 N2 H. apply Nat.le_antisymm; apply NoDup_incl_length; auto; intros x Hx; apply H; assumption.
+Qed.
+
+Definition fly (m : mgr) : N := len (add_held (m_add m) ++ p_held (m_poll m)).
+
+Lemma held_length sto m :
+  NoDup (ids sto) -> held_ok sto m ->
+  len (pending_ids sto) = len (m_in m) + len (m_re m) + len (executing m) + fly m.
+Proof.
+  intros Hn Hh. unfold fly, len.
+  assert (E : length (pending_ids sto) = length (held m)).
+  { apply same_set_length.
+    - unfold pending_ids. apply NoDup_ids_filter. assumption.
+    - apply (NoDup_count_occ N.eq_dec). intros x. apply (held_le1 sto m x Hh).
+    - intros x. rewrite in_pending_ids. split; intros H.
+      + apply (count_occ_In N.eq_dec). rewrite (Hh x), H. lia.
+      + apply (held_pending sto m x Hh H). }
+  rewrite E. unfold held. rewrite !app_length. lia.
+Qed.
+
+Definition a_task (a : astate) : N := match a with AStore t _ => t | AEnq t => t | AMark t => t end.
+
+(* the relation between a model state and the oracle's bookkeeping *)
+Record Sim (s : st) (k : chk) : Prop := mkSim {
+  sim_ok : k_ok k = true;
+  sim_cur : k_cur k = true -> k_obs k = Some (observe s);
+  sim_fly : forall m, s_mgr s = Some m -> k_fly k = fly m;
+  sim_add : forall m a x, s_mgr s = Some m -> In (a, x) (m_add m) -> alookup a (k_add k) = Some (a_task x);
+  sim_fin : forall m w, s_mgr s = Some m -> In w (m_work m) -> w_ph w = WFin true -> In (w_t w) (k_succ k);
+  sim_gone : forall p t, k_obs k = Some p -> In t (oids (ob_rows p)) -> storedb t (s_store s) = false -> In t (k_succ k);
+  sim_fresh : k_fresh k = true ->
+              (forall r, In r (s_store s) -> r_st r = Failed) /\
+              exists m, s_mgr s = Some m /\ m_in m = [] /\ m_re m = [] /\ m_work m = [];
+  sim_noop : k_noop k = true -> k_cur k = true }.
+
+Lemma sim_init c : Sim (init c) chk0.
+Proof.
+  constructor; cbn; try discriminate; try reflexivity.
+Qed.
+
+Lemma len_app a b : len (a ++ b) = len a + len b.
+Proof. unfold len. rewrite app_length. lia. Qed.
+
+Lemma fly_set_add l m : fly (set_add l m) = len (add_held l) + len (p_held (m_poll m)).
+Proof. destruct m. unfold fly. cbn. apply len_app. Qed.
+Lemma fly_eq m : fly m = len (add_held (m_add m)) + len (p_held (m_poll m)).
+Proof. unfold fly. apply len_app. Qed.
+Lemma len_add_held_mid b x af : len (add_held (b ++ x :: af)) = len (a_held (snd x)) + len (add_held (b ++ af)).
+Proof. rewrite add_held_app, add_held_app2, !len_app. lia. Qed.
+
+Lemma pick_key a l b x af : pick (fun p : N * astate => fst p =? a) l = Some (b, x, af) -> l = b ++ x :: af /\ fst x = a.
+Proof. intros H. apply pick_spec in H as [H1 H2]. apply N.eqb_eq in H2. auto. Qed.
+
+Lemma memb_ids t s : memb t (ids s) = storedb t s.
+Proof.
+  destruct (storedb t s) eqn:E.
+  - apply memb_In, storedb_In. assumption.
+  - destruct (memb t (ids s)) eqn:M; [|reflexivity]. apply memb_In, storedb_In in M. congruence.
+Qed.
+
+Lemma fly_push q t m : fly (push q t m) = fly m.
+Proof. destruct m, q; reflexivity. Qed.
+Lemma work_push q t m : m_work (push q t m) = m_work m.
+Proof. destruct m, q; reflexivity. Qed.
+Lemma add_push q t m : m_add (push q t m) = m_add m.
+Proof. destruct m, q; reflexivity. Qed.
+Lemma work_set_add l m : m_work (set_add l m) = m_work m.
+Proof. destruct m; reflexivity. Qed.
+Lemma add_set_add l m : m_add (set_add l m) = l.
+Proof. destruct m; reflexivity. Qed.
+Lemma fly_set_poll p m : fly (set_poll p m) = len (add_held (m_add m)) + len (p_held p).
+Proof. destruct m. unfold fly. cbn. apply len_app. Qed.
+Lemma work_set_poll p m : m_work (set_poll p m) = m_work m.
+Proof. destruct m; reflexivity. Qed.
+Lemma add_set_poll p m : m_add (set_poll p m) = m_add m.
+Proof. destruct m; reflexivity. Qed.
+
+Ltac flyn m :=
+  unfold fly;
+  destruct m as [cl qi qr ii ir wk ad pl];
+  unfold set_add, set_poll, push, set_queue, set_work, set_idle, queue_of in *; cbn [m_add m_poll] in *;
+  subst;
+  rewrite ?len_app, ?len_add_held_mid; cbn [snd a_held p_held];
+  repeat match goal with |- context[len [?x]] => change (len [x]) with 1 end;
+  change (len (@nil N)) with 0; lia.
+
+Ltac sim_auto HS :=
+  let h1 := fresh "h1" in let h2 := fresh "h2" in let h3 := fresh "h3" in let h4 := fresh "h4" in
+  let h5 := fresh "h5" in let h6 := fresh "h6" in let h7 := fresh "h7" in let h8 := fresh "h8" in
+  destruct HS as [h1 h2 h3 h4 h5 h6 h7 h8]; constructor; unfold with_mgr, with_sm in *;
+  cbn [k_ok k_cur k_obs k_fly k_add k_succ k_fresh k_noop touch quiet with_fly with_ok
+       s_store s_mgr s_cfg s_now s_log fst snd] in *;
+  try discriminate; try assumption; eauto.
+
+Lemma sim_step s k o : Inv s -> Sim s k -> Sim (fst (step s o)) (chk_step k o (snd (step s o))).
+Proof.
+  destruct s as [c sto now mg log]. intros HI HS. pose proof HI as [Hn Hm]. cbn [s_store s_mgr s_log] in Hn, Hm.
+  destruct o; unfold step; cbn [s_store s_mgr s_log s_cfg s_now].
+  - (* Start *) destruct mg as [m|]; [exact HS|].
+    destruct (order_ok order (pending_ids sto)) eqn:O; [|exact HS].
+    cbn [fst snd chk_step]. sim_auto HS.
+    + intros m E; inversion E; reflexivity.
+    + intros m a x E; inversion E; intros [].
+    + intros m w E; inversion E; intros [].
+    + intros p t Hp Hin S. apply (h6 p t Hp Hin). rewrite <- S. symmetry. apply storedb_mark_failed_all.
+    + intros _. split; [apply mark_all_failed; assumption|]. exists (fresh_mgr c). repeat split.
+  - (* StartCrash *) destruct mg as [m|]; [exact HS|].
+    destruct (order_ok order (pending_ids sto)) eqn:O; [|exact HS].
+    cbn [fst snd chk_step]. sim_auto HS.
+    intros p t Hp Hin S. apply (h6 p t Hp Hin). rewrite <- S. symmetry. apply storedb_mark_failed_all.
+  - (* Crash *) cbn [fst snd chk_step with_mgr]. sim_auto HS.
+  - (* Close *) destruct mg as [m|]; [|exact HS]. cbn [fst snd chk_step with_mgr]. sim_auto HS.
+    + intros m' E. inversion E. rewrite (h3 m eq_refl). destruct m; reflexivity.
+    + intros m' a x E. inversion E. intros Hin. apply (h4 m a x eq_refl). destruct m; exact Hin.
+    + intros m' w E. inversion E. intros Hin. apply (h5 m w eq_refl). destruct m; exact Hin.
+    + intros H. destruct (h7 H) as [F [m0 [E [A [B C]]]]]. inversion E. subst m0. split; [assumption|].
+      exists (set_closed m). destruct m; cbn in *. auto.
+  - (* CloseDone *) destruct mg as [m|]; [|exact HS].
+    destruct (m_closed m && match m_work m with [] => true | _ => false end); [|exact HS].
+    cbn [fst snd chk_step]. sim_auto HS.
+  - (* Tick *) cbn [fst snd chk_step]. sim_auto HS.
+  - (* AddCheck *) destruct mg as [m|]; [|exact HS].
+    destruct (existsb (fun p => fst p =? a) (m_add m)) eqn:Fr; [exact HS|].
+    destruct (m_closed m); cbn [fst snd chk_step]; [sim_auto HS|]. sim_auto HS.
+    + intros m' E. inversion E. rewrite (h3 m eq_refl). rewrite fly_set_add, fly_eq. reflexivity.
+    + intros m' a0 x E. inversion E. subst m'. destruct m as [cl qi qr ii ir wk ad pl]. cbn [m_add set_add] in *.
+      intros [Hin|Hin].
+      * inversion Hin. subst. cbn. rewrite N.eqb_refl. reflexivity.
+      * cbn [alookup]. destruct (a =? a0) eqn:Ea.
+        -- apply N.eqb_eq in Ea. subst a0. exfalso.
+           assert (X : existsb (fun p : N * astate => fst p =? a) ad = true)
+             by (apply existsb_exists; exists (a, x); split; [assumption|apply N.eqb_refl]).
+           congruence.
+        -- apply (h4 _ a0 x eq_refl Hin).
+    + intros m' w E. inversion E. subst m'. intros Hin. apply (h5 m w eq_refl). destruct m; exact Hin.
+    + intros H. destruct (h7 H) as [F [m0 [E [A [B C]]]]]. inversion E. subst m0. split; [assumption|].
+      eexists. split; [reflexivity|]. destruct m; cbn in *. auto.
+  - (* AddStore *) destruct mg as [m|]; [|exact HS]. destruct Hm as [Hh [Hs Hl]].
+    destruct (pick (fun p => fst p =? a) (m_add m)) as [[[b [a' [t d| |]]] af]|] eqn:P; try exact HS.
+    apply pick_key in P as [P Ea]. cbn in Ea. subst a'.
+    assert (Lk : alookup a (k_add k) = Some t).
+    { apply (sim_add _ _ HS m a (AStore t d) eq_refl). rewrite P. apply in_or_app. right. left. reflexivity. }
+    destruct (add_row t (if d =? 0 then Pending else Failed) d now sto) as [sto'|] eqn:A.
+    + apply add_row_some in A as [A ->].
+      assert (Kn : match k_obs k, alookup a (k_add k) with
+                   | Some p, Some t0 => k_cur k && memb t0 (oids (ob_rows p)) | _, _ => false end = false).
+      { rewrite Lk. destruct (k_obs k) as [p|] eqn:Ko; [|reflexivity]. destruct (k_cur k) eqn:Kc; [|reflexivity].
+        rewrite (sim_cur _ _ HS Kc) in Ko. inversion Ko. rewrite observe_oids. cbn [s_store]. rewrite memb_ids, A. reflexivity. }
+      destruct (d =? 0); cbn [fst snd chk_step]; rewrite Kn; sim_auto HS.
+      * rewrite h1. reflexivity.
+      * intros m' E. inversion E. rewrite (h3 m eq_refl). rewrite fly_set_add, fly_eq, P, !len_add_held_mid.
+        cbn [snd a_held]. change (len [t]) with 1. change (len (@nil N)) with 0. destruct m as [cl qi qr ii ir wk ad pl]; cbn [m_poll]; lia.
+      * intros m' a0 x E. inversion E. subst m'. destruct m as [cl qi qr ii ir wk ad pl]. cbn [m_add set_add] in *. subst ad.
+        intros Hin. apply in_app_or in Hin. destruct Hin as [Hin|[Hin|Hin]].
+        -- apply (h4 _ a0 x eq_refl). apply in_or_app. auto.
+        -- inversion Hin. subst. exact Lk.
+        -- apply (h4 _ a0 x eq_refl). apply in_or_app. right. right. assumption.
+      * intros m' w E. inversion E. subst m'. intros Hin. apply (h5 m w eq_refl). destruct m; exact Hin.
+      * intros p t0 Hp Hin S. apply (h6 p t0 Hp Hin). rewrite storedb_app in S. apply orb_false_iff in S as [S _]. exact S.
+      * rewrite h1. reflexivity.
+      * intros m' E. inversion E. rewrite (h3 m eq_refl). rewrite fly_set_add, fly_eq, P, !len_add_held_mid.
+        cbn [snd a_held]. change (len [t]) with 1. change (len (@nil N)) with 0. destruct m as [cl qi qr ii ir wk ad pl]; cbn [m_poll]; lia.
+      * intros m' a0 x E. inversion E. subst m'. destruct m as [cl qi qr ii ir wk ad pl]. cbn [m_add set_add] in *. subst ad.
+        intros Hin. apply (h4 _ a0 x eq_refl). apply in_app_or in Hin. apply in_or_app. cbn. tauto.
+      * intros m' w E. inversion E. subst m'. intros Hin. apply (h5 m w eq_refl). destruct m; exact Hin.
+      * intros p t0 Hp Hin S. apply (h6 p t0 Hp Hin). rewrite storedb_app in S. apply orb_false_iff in S as [S _]. exact S.
+    + cbn [fst snd chk_step]. sim_auto HS.
+      * intros m' E. inversion E. rewrite (h3 m eq_refl). rewrite fly_set_add, fly_eq, P, !len_add_held_mid.
+        cbn [snd a_held]. change (len [t]) with 1. change (len (@nil N)) with 0. destruct m as [cl qi qr ii ir wk ad pl]; cbn [m_poll]; lia.
+      * intros m' a0 x E. inversion E. subst m'. destruct m as [cl qi qr ii ir wk ad pl]. cbn [m_add set_add] in *. subst ad.
+        intros Hin. apply (h4 _ a0 x eq_refl). apply in_app_or in Hin. apply in_or_app. cbn. tauto.
+      * intros m' w E. inversion E. subst m'. intros Hin. apply (h5 m w eq_refl). destruct m; exact Hin.
+      * intros H. destruct (h7 H) as [F [m0 [E [A' [B C]]]]]. inversion E. subst m0. split; [assumption|].
+        eexists. split; [reflexivity|]. destruct m; cbn in *. auto.
+  - (* AddEnq *) destruct mg as [m|]; [|exact HS]. destruct Hm as [Hh [Hs Hl]].
+    destruct (pick (fun p => fst p =? a) (m_add m)) as [[[b [a' [t d|t|t]]] af]|] eqn:P; try exact HS.
+    apply pick_key in P as [P Ea]. cbn in Ea. subst a'.
+    assert (Lk : alookup a (k_add k) = Some t).
+    { apply (sim_add _ _ HS m a (AEnq t) eq_refl). rewrite P. apply in_or_app. right. left. reflexivity. }
+    destruct (has_room QIn c m); cbn [fst snd chk_step]; sim_auto HS.
+    + intros m' E. inversion E. rewrite (h3 m eq_refl). flyn m.
+    + intros m' a0 x E. inversion E. subst m'. cbn [m_add].
+      intros Hin. apply (h4 _ a0 x eq_refl). rewrite P. apply in_app_or in Hin. apply in_or_app. cbn. tauto.
+    + intros m' w E. inversion E. subst m'. cbn [m_work]. apply (h5 m w eq_refl).
+    + intros m' E. inversion E. rewrite (h3 m eq_refl). flyn m.
+    + intros m' a0 x E. inversion E. subst m'. cbn [m_add].
+      intros Hin. apply in_app_or in Hin. destruct Hin as [Hin|[Hin|Hin]].
+      * apply (h4 _ a0 x eq_refl). rewrite P. apply in_or_app. auto.
+      * inversion Hin. subst. exact Lk.
+      * apply (h4 _ a0 x eq_refl). rewrite P. apply in_or_app. right. right. assumption.
+    + intros m' w E. inversion E. subst m'. cbn [m_work]. apply (h5 m w eq_refl).
+    + intros H. destruct (h7 H) as [F [m0 [E [A' [B C]]]]]. inversion E. subst m0. split; [assumption|].
+      eexists. split; [reflexivity|]. cbn. auto.
+  - (* AddMark *) destruct mg as [m|]; [|exact HS]. destruct Hm as [Hh [Hs Hl]].
+    destruct (pick (fun p => fst p =? a) (m_add m)) as [[[b [a' [t d|t|t]]] af]|] eqn:P; try exact HS.
+    apply pick_key in P as [P Ea]. cbn in Ea. subst a'.
+    assert (K' : chk_step k (OpAddMark a) (if storedb t sto then ODone else ONotFound) = touch (with_fly (k_fly k - 1) k))
+      by (destruct (storedb t sto); reflexivity).
+    cbn [fst snd]. rewrite K'. clear K'. sim_auto HS.
+    + intros m' E. inversion E. rewrite (h3 m eq_refl). flyn m.
+    + intros m' a0 x E. inversion E. subst m'. cbn [m_add].
+      intros Hin. apply (h4 _ a0 x eq_refl). rewrite P. apply in_app_or in Hin. apply in_or_app. cbn. tauto.
+    + intros m' w E. inversion E. subst m'. cbn [m_work]. apply (h5 m w eq_refl).
+    + intros p t0 Hp Hin S. apply (h6 p t0 Hp Hin). rewrite storedb_mark_failed in S. exact S.
